@@ -122,6 +122,8 @@ type Engine struct {
 	curFrame    *frame
 	version     int
 	nameSeen    map[string]int
+	divCache    map[string][2]*smt.Term
+	CheckNarrow bool // emit 'narrow' obligations for value-changing integer conversions
 	quiet       int
 	noAssume    int // inside quantifier bodies side facts would capture the bound variable
 	implQueries map[string]types.Type
@@ -301,6 +303,20 @@ func (e *Engine) store(st *State, p Val, v Val) {
 		}
 		return
 	}
+	if !pi.IsElem && pi.Off == 0 && typeStr(pi.Root) == "math/big.Int" && pi.N == len(e.comps(pi.Root)) {
+		// assigning a whole big.Int value: the zero value denotes 0, anything else is unknown
+		zero := true
+		for k, t := range v.Terms {
+			if t != e.zeroOf(e.comps(pi.Root)[k]) {
+				zero = false
+			}
+		}
+		if zero {
+			e.bigSet(st, ref, e.C.BVLit64(0, bigW))
+		} else {
+			e.bigSet(st, ref, e.C.Fresh("big.assigned", smt.BV(bigW)))
+		}
+	}
 	rootComps := e.comps(pi.Root)
 	if len(v.Terms) != pi.N {
 		panic(fmt.Sprintf("store arity %d vs %d (%s into %s)", len(v.Terms), pi.N, v.Typ, pi.Root))
@@ -352,6 +368,9 @@ func (e *Engine) allocCell(st *State, t types.Type) Val {
 	ref := e.newRef(st)
 	p := Val{Typ: types.NewPointer(t), Terms: []*smt.Term{ref}, Ptr: e.wholePtr(t)}
 	e.store(st, p, e.zero(t))
+	if typeStr(t) == "math/big.Int" {
+		e.bigSet(st, ref, e.C.BVLit64(0, bigW))
+	}
 	if ts := typeStr(t); ts == "bytes.Buffer" || ts == "bytes.Reader" {
 		// the zero Buffer is empty
 		e.ghostSet(st, gCount, ref, e.C.BVLit64(0, 64))
